@@ -136,7 +136,7 @@ def run(ctx):
 			if cnt % ctx.q(3, 1) == 0:
 				sub({'kind': 'locate', 'names': list(combo)}, 'locate')
 			cnt += 1
-	for j in range(ctx.q(150, 2500)):
+	for j in range(ctx.q(320, 2500)):
 		if not ctx.time_left(0.9):
 			break
 		n = rng.randint(1, 9)
